@@ -345,6 +345,13 @@ func (rc *RecoveryConsumer) RequestRecovery(partitionID int32, fromOffset kafka.
 // RefreshAssignments updates the current partitions that are being recovered when it's known that the set of recoveryrequests
 // managed by RecoveryTracker may have changed.
 func (rc *RecoveryConsumer) RefreshAssignments() error {
+	// the ticker, a revocation and a completed partition all end up here on their own goroutines; the candidates are built and
+	// compared under the same lock as the reassignment, so a refresh arriving while another is talking to the broker decides
+	// on what that one installs (lock in-process recovery for all partitions so that they stop processing records & don't
+	// overwrite the zero-value of the RecoveryRemaining gauge)
+	rc.partitionAssignmentLock.Lock()
+	defer rc.partitionAssignmentLock.Unlock()
+
 	// build a candidate set of assignments by matching the assigned partitions with the recovery requests from the tracker
 	recoveryCandidates := make(map[int32]partitionRecoveryState)
 	for _, partition := range rc.assignedPartitions {
@@ -376,10 +383,6 @@ func (rc *RecoveryConsumer) RefreshAssignments() error {
 
 	// check for changes, and only reassign to the consumer if we found a change in the number of assigned partitions or the partitionIDs
 	if rc.partitionAssignmentsChanged(recoveryCandidates) {
-		// lock in-process recovery for all partitions so that they stop processing records & don't overwrite the zero-value of the RecoveryRemaining gauge
-		rc.partitionAssignmentLock.Lock()
-		defer rc.partitionAssignmentLock.Unlock()
-
 		// empty the channel
 		err := rc.consumer.Unassign()
 		if err != nil {
@@ -436,6 +439,8 @@ func (rc *RecoveryConsumer) setActivePartitionMap(partitions map[int32]partition
 // SetAssignedPartitions updates the slice of partitions that are currently assigned in kafkaconsumer.
 func (rc *RecoveryConsumer) SetAssignedPartitions(partitions []kafka.TopicPartition) {
 	log.WithField("num_partitions", len(partitions)).Info("recoveryconsumer: kafkaconsumer updated assigned partitions")
+	rc.partitionAssignmentLock.Lock()
+	defer rc.partitionAssignmentLock.Unlock()
 	rc.assignedPartitions = partitions
 }
 
